@@ -97,8 +97,21 @@ Applicable(kind) ==
     [] kind = "rbc" -> AppRbc [] kind = "rtc" -> AppRbc \cup {"RubyPosition"}
     [] kind = "region" -> AppRegion [] OTHER -> {}
 
+\* documented content models that are sequences, not sets (doc/data_model.md):
+\*   Ruby : Rb? Rt? | Rb? Rp Rt? Rp | Rbc Rtc Rtc?          Rtc : Rt* | Rp Rt* Rp
+KidKinds(tree, q) == LET ks == SelectSeq([x \in 1..Len(tree) |-> x], LAMBDA x : tree[x].ppos = q)
+                     IN  [x \in 1..Len(ks) |-> tree[ks[x]].kind]
+RubyPattern(ks) ==
+  ks \in {<<>>, <<"rb">>, <<"rt">>, <<"rb", "rt">>, <<"rp", "rp">>, <<"rb", "rp", "rp">>, <<"rp", "rt", "rp">>,
+          <<"rb", "rp", "rt", "rp">>, <<"rbc", "rtc">>, <<"rbc", "rtc", "rtc">>}
+RtcPattern(ks) ==
+  \/ \A x \in 1..Len(ks) : ks[x] = "rt"
+  \/ Len(ks) >= 2 /\ ks[1] = "rp" /\ ks[Len(ks)] = "rp" /\ \A x \in 2..(Len(ks) - 1) : ks[x] = "rt"
+
 C13Node(rec, t, tree, q) ==
   LET nd == tree[q] IN
+  /\ IF nd.kind = "ruby" THEN Chk(RubyPattern(KidKinds(tree, q)), rec.id, t, "c13_ruby_pattern") ELSE TRUE
+  /\ IF nd.kind = "rtc" THEN Chk(RtcPattern(KidKinds(tree, q)), rec.id, t, "c13_rtc_pattern") ELSE TRUE
   /\ Chk(nd.hasb = 0 /\ nd.hase = 0, rec.id, t, "c13_no_timing")
   /\ Chk(nd.nsteps = 0, rec.id, t, "c13_no_animation_steps")
   /\ Chk(nd.regref = 0, rec.id, t, "c13_no_region_reference")
